@@ -95,17 +95,24 @@ def far_test(b, D):
         while e.k == "un" and e.x["op"] == "Not":
             neg = not neg
             e = e.a[0]
-        if e.k != "phi" or len(e.a) != 3:
+        if e.k != "phi" or len(e.a) not in (2, 3):
             continue
         consts = [a for a in e.a if a.k == "const"]
         cs = {a.strip().x.get("site") for a in e.a if a.strip().k == "call"}
-        if len(consts) == 1 and const_val(consts[0]) == 1 and cs == want:
-            zero = [tb for v, tb in t["arms"] if int(v) == 0]
-            if zero:
-                f_t, t_t = zero[0], t["otherwise"]
-                if neg:
-                    f_t, t_t = t_t, f_t
-                verdict = (vb, t_t, f_t)
+        if cs != want or len(consts) + 2 != len(e.a) or any(const_val(c_) != 1 for c_ in consts):
+            continue
+        zero = [tb for v, tb in t["arms"] if int(v) == 0]
+        if not zero:
+            continue
+        f_t, t_t = zero[0], t["otherwise"]
+        if neg:
+            f_t, t_t = t_t, f_t
+        if not consts:
+            # the `Unbounded => true` path was threaded past the test: it must lead straight to the `true` side
+            reach = reachable_without(b, banned_blocks=[vb], start=labels["Unbounded"])
+            if t_t not in reach or f_t in reach:
+                continue
+        verdict = (vb, t_t, f_t)
     if verdict is None:
         return "no branch on the verdict `Unbounded => true | Included => cmp | Excluded => cmp`"
     return dict(sw=bb, labels=labels, src=src, arms=arms, verdict=verdict)
@@ -243,6 +250,8 @@ def r3_guard(ck, F, d):
                 y = comp.strip()
                 if y.k == "field" and y.a[0].strip().k == "call" and y.a[0].strip().x["path"].endswith(A("transmute_entry")):
                     tr.append(y.a[0].strip())
+        if not tr and tup.strip().k == "call" and tup.strip().x["path"].endswith(A("transmute_entry")):
+            tr = [tup.strip(), tup.strip()]      # Some(transmute_entry_to_static(key, val)) — the pair handed over whole
         same = len(tr) == 2 and tr[0].ident() == tr[1].ident() and all(tuple_part(t_.a[0]) == {0} and tuple_part(t_.a[1]) == {1} and cursor_sources(t_.a[0]) == tested and cursor_sources(t_.a[1]) == tested for t_ in tr)
         ck.ob(R, f"yield-guarded/{d}", ok_dom, "the Ok(Some(entry)) exit is reached only through the `contains` == true edge", b, s)
         ck.ob(R, f"yield-is-tested-entry/{d}", same, "the yielded entry is the one whose key was tested", b, s)
@@ -292,7 +301,8 @@ def r4_once(ck, F, d):
         ok = rng.k == "agg" and rng.x.get("ak") == "tuple" and len(rng.a) == 2
         if ok:
             s0, s1 = rng.a
-            ok = is_call(s0, A("map_bound")) and is_call(s0.strip().a[0], "::start_bound") and is_call(s1, A("map_bound")) and is_call(s1.strip().a[0], "::end_bound")
+            ismap = lambda z: is_call(z, A("map_bound")) or is_call(z, "ops::Bound::<T>::map")
+            ok = ismap(s0) and is_call(s0.strip().a[0], "::start_bound") and ismap(s1) and is_call(s1.strip().a[0], "::end_bound")
         ck.ob(R, f"bounds-copied-in-order/{d}", ok, f"range := (map_bound(start_bound), map_bound(end_bound)) — got {rng.show()[:120]}", nb, s)
         cur = agg_field_expr(nb, s, rv, "cursor")
         ck.ob(R, f"cursor-moved-in/{d}", is_arg(cur, "cursor"), "the iterator owns the cursor it was given", nb, s, nontrivial=False)
@@ -303,6 +313,12 @@ def r4_once(ck, F, d):
 
 def r4_map_bound(ck, F):
     R = "C04-R4"
+    if not F.has_body(A("map_bound")):
+        # the crate's own helper is gone: the constructors must then use std's `Bound::map` (variant-preserving by
+        # its documentation, trusted like the rest of std) — checked at the use sites (bounds-copied-in-order)
+        users = [b_.path for b_ in F.user_bodies() for s, c, t in b_.calls() if callee_name(c).endswith("ops::Bound::<T>::map")]
+        ck.ob(R, "map-bound-switch", len(users) >= 2, f"no local map_bound: bounds are converted with std::ops::Bound::map ({sorted(set(users))})", config=F.config)
+        return
     b = F.body(A("map_bound"))
     for bb in sorted(b.normal_blocks()):
         if b.term(bb)["t"] == "switch":
